@@ -1243,3 +1243,82 @@ Proof.
   destruct (merge_rows files most T r s Hm Hs) as (i & f & R1 & R2 & _ & R4).
   exists i, f. split; [exact R1|]. split; [exact R2 | exact R4].
 Qed.
+
+(* ------------------------------------------------------------------ *)
+(* 7. statements in the form used by Props/C09.v                       *)
+Lemma monoid_laws : forall ng,
+  (forall a b, sadd a b = sadd b a) /\
+  (forall a b c, sadd (sadd a b) c = sadd a (sadd b c)) /\
+  (forall a, swf ng a -> sadd (szero ng) a = a /\ sadd a (szero ng) = a) /\
+  (forall a b, swf ng a -> swf ng b -> swf ng (sadd a b)) /\
+  swf ng (szero ng) /\
+  (forall D rows, rect ng rows -> swf ng (stats_of_rows D ng rows)) /\
+  (forall D, stats_of_rows D ng [] = szero ng).
+Proof.
+  intros ng. split; [exact sadd_comm|]. split; [exact sadd_assoc|].
+  split; [intros a H; split; [apply sadd_zero_l | apply sadd_zero_r]; exact H|].
+  split; [intros a b; apply sadd_wf|]. split; [apply szero_wf|].
+  split; [intros D rows; apply stats_wf | intros D; reflexivity].
+Qed.
+
+(* the work split applied to the chunk list the code really builds *)
+Lemma work_split_real : forall lookup files rows p,
+  (1 <= rows)%nat -> (1 <= p)%nat ->
+  exists wl, work_split (n_total_cells lookup files) p (all_chunks lookup 0 files rows) = Some wl /\
+             length wl = p /\ concat wl = all_chunks lookup 0 files rows /\
+             cells_of files (concat (drop_empty wl)) = concat (map f_cells (filter (overlaps lookup) files)).
+Proof.
+  intros lookup files rows p Hrows Hp.
+  destruct (all_chunks_sizes lookup rows Hrows files 0%nat) as [Hsz Htot].
+  rewrite <- Htot.
+  destruct (work_split_safe p _ Hp Hsz) as (wl & Hws & Hlen & Hcat).
+  exists wl. split; [exact Hws|]. split; [exact Hlen|]. split; [exact Hcat|].
+  rewrite concat_drop_empty, Hcat.
+  pose proof (all_chunks_cells lookup rows Hrows files []) as Hc. cbn [app length] in Hc. exact Hc.
+Qed.
+
+(* the cell -> row lookup is the taxonomy's cell -> cluster map followed by the sorted row table *)
+Lemma lookup_spec : forall leaf, NoDup (map fst leaf) ->
+  exists lookup, cell_to_row (cluster_to_row (map fst leaf)) (cell_to_cluster leaf) = Some lookup /\
+    forall cell,
+      dict_get cell lookup =
+      match dict_get cell (cell_to_cluster leaf) with
+      | Some cl => option_map Z.of_nat (zassoc cl (cluster_to_row (map fst leaf)))
+      | None => None
+      end.
+Proof.
+  intros leaf ND. pose proof (rows_by_name leaf ND) as RB. cbv zeta in RB.
+  destruct RB as (_ & _ & _ & _ & lookup & Hl & _ & H1 & H2).
+  exists lookup. split; [exact Hl|]. intros cell.
+  destruct (dict_get cell (cell_to_cluster leaf)) as [cl|] eqn:E.
+  - destruct (H1 cell cl E) as (r & Hr & Hd). rewrite Hr, Hd. reflexivity.
+  - apply H2. exact E.
+Qed.
+
+Lemma table_is_direct : forall D leaf files rows p ng,
+  NoDup (map fst leaf) -> (1 <= rows)%nat -> (1 <= p)%nat -> files_wf ng files ->
+  exists lookup,
+    (forall cell,
+      dict_get cell lookup =
+      match dict_get cell (cell_to_cluster leaf) with
+      | Some cl => option_map Z.of_nat (zassoc cl (cluster_to_row (map fst leaf)))
+      | None => None
+      end) /\
+    precompute D leaf files rows p =
+      if existsb (named lookup) (all_cells files)
+      then Ok (cluster_to_row (map fst leaf),
+               map (fun r => stats_of_rows D ng (members lookup (Z.of_nat r) (all_cells files)))
+                   (seq 0 (length leaf)))
+      else Err E_NOWORK.
+Proof.
+  intros D leaf files rows p ng ND Hr Hp Hfw.
+  destruct (precompute_equals_direct D leaf files rows p ng ND Hr Hp Hfw) as (lk & L1 & E1).
+  destruct (lookup_spec leaf ND) as (lk' & L2 & S2).
+  rewrite L1 in L2. inversion L2; subst lk'.
+  exists lk. split; [exact S2 | exact E1].
+Qed.
+
+Lemma unnamed_contribute_nothing : forall D ng lookup r cells,
+  stats_of_rows D ng (members lookup r cells) =
+  stats_of_rows D ng (members lookup r (filter (named lookup) cells)).
+Proof. intros. rewrite <- members_named. reflexivity. Qed.
